@@ -324,14 +324,10 @@ func (w *mworld) apply(o mop, e vh.Ev) bool {
 			case <-time.After(opDeadline):
 				e["res"] = "stuck"
 			}
-			if e["res"] == "ok" && !waitCh(s.lst.destroyed) {
-				e["res"] = "stuck"
-			}
+			// the stream is destroyed before the receiver is called: no further wait; a stream whose
+			// destruction did not run shows as still live in the observation
 		case "reset":
-			s.sender.GetStream().ResetStream(types.StreamLocalReset)
-			if !waitCh(s.lst.destroyed) {
-				e["res"] = "stuck"
-			}
+			s.sender.GetStream().ResetStream(types.StreamLocalReset) // synchronous
 		case "rreset":
 			b := w.b.wire.RstStream(s.wid)
 			if b == nil {
@@ -345,7 +341,9 @@ func (w *mworld) apply(o mop, e vh.Ev) bool {
 		if !s.conn.Open() && !s.conn.WaitClosed(opDeadline) {
 			e["res"] = "stuck"
 		}
-		w.ended(s)
+		if s.lst.isDestroyed() {
+			w.ended(s)
+		}
 		return true
 	case "goaway", "rclose", "garbage":
 		conn := w.reg.Get(o.C)
